@@ -40,6 +40,46 @@
 #define T_BP	4
 #define T_TWIN	8
 
+/* ------------------------------------------------------------------ names of what this build tests */
+#ifndef EC_USE_PROJECTIVE
+#define CFG_COORDS "affine"
+#elif defined(EC_PROJ_ADD_MIX) && defined(EC_PROJ_REPEAT_DOUBLE)
+#define CFG_COORDS "jacobian+mix+rd"
+#elif defined(EC_PROJ_ADD_MIX)
+#define CFG_COORDS "jacobian+mix"
+#elif defined(EC_PROJ_REPEAT_DOUBLE)
+#define CFG_COORDS "jacobian+rd"
+#else
+#define CFG_COORDS "jacobian"
+#endif
+#define ALG_NAME(a) ((a) == 0 ? "bin" : (a) == 1 ? "pre_dbl" : (a) == 2 ? "sl_win" : (a) == 3 ? "comb1t" : "comb2t")
+#define TWIN_NAME(a) ((a) == 0 ? "bin" : (a) == 1 ? "fxp_unkpt" : (a) == 2 ? "joint" : "inter")
+/* Targets are the dispatcher plus the implementation the macros resolve to, so that a finding in one
+ * algorithm is not keyed like a finding in another one.  Window bits / digit width go to the case text. */
+static char TGT_SETUP[96], TGT_ADD[96], TGT_SUB[96], TGT_DBL[96], TGT_UNK[96], TGT_BP[96], TGT_TWINBP[128], TGT_TWIN[96], TGT_VALIDATE[96];
+static char CFG_TEXT[160];
+static void
+names_init(void) {
+	snprintf(TGT_SETUP, sizeof(TGT_SETUP), "ecdsa_curve_from_str/%s:%s", CFG_COORDS, ALG_NAME(EC_PF_FXP_MULT_ALGO));
+	snprintf(TGT_VALIDATE, sizeof(TGT_VALIDATE), "ec_curve_validate/%s:%s", CFG_COORDS, ALG_NAME(EC_PF_UNKPT_MULT_ALGO));
+	snprintf(TGT_ADD, sizeof(TGT_ADD), "ec_point_add/%s", CFG_COORDS);
+	snprintf(TGT_SUB, sizeof(TGT_SUB), "ec_point_sub/%s", CFG_COORDS);
+	snprintf(TGT_DBL, sizeof(TGT_DBL), "ec_point_add(P,P)/%s", CFG_COORDS);
+	snprintf(TGT_UNK, sizeof(TGT_UNK), "ec_point_unknown_pt_mult/%s:%s", CFG_COORDS, ALG_NAME(EC_PF_UNKPT_MULT_ALGO));
+	snprintf(TGT_BP, sizeof(TGT_BP), "ec_point_mult_bp/%s:%s", CFG_COORDS, ALG_NAME(EC_PF_FXP_MULT_ALGO));
+#if EC_PF_TWIN_MULT_ALGO == EC_PF_TWIN_MULT_ALGO_FXP_UNKPT
+	snprintf(TGT_TWINBP, sizeof(TGT_TWINBP), "ec_point_twin_mult_bp/%s:fxp_unkpt(%s,%s)", CFG_COORDS,
+	    ALG_NAME(EC_PF_FXP_MULT_ALGO), ALG_NAME(EC_PF_UNKPT_MULT_ALGO));
+	snprintf(TGT_TWIN, sizeof(TGT_TWIN), "ec_point_twin_mult/%s:bin", CFG_COORDS);
+#else
+	snprintf(TGT_TWINBP, sizeof(TGT_TWINBP), "ec_point_twin_mult_bp/%s:%s", CFG_COORDS, TWIN_NAME(EC_PF_TWIN_MULT_ALGO));
+	snprintf(TGT_TWIN, sizeof(TGT_TWIN), "ec_point_twin_mult/%s:%s", CFG_COORDS, TWIN_NAME(EC_PF_TWIN_MULT_ALGO));
+#endif
+	snprintf(CFG_TEXT, sizeof(CFG_TEXT), "digit=%d fxp=%s/w%d unk=%s/w%d twin=%s", (int)BN_DIGIT_BIT_CNT,
+	    ALG_NAME(EC_PF_FXP_MULT_ALGO), (int)EC_PF_FXP_MULT_WIN_BITS, ALG_NAME(EC_PF_UNKPT_MULT_ALGO),
+	    (int)EC_PF_UNKPT_MULT_WIN_BITS, TWIN_NAME(EC_PF_TWIN_MULT_ALGO));
+}
+
 /* ------------------------------------------------------------------ native oracle (tiny curves) */
 typedef struct { uint32_t x, y, inf; } np_t;
 static const np_t NP_O = { 0, 0, 1 };
@@ -246,7 +286,7 @@ desc_tiny(char *b, size_t n) {
 	char p[40], q[40];
 	if (cur.P.inf) strcpy(p, "O"); else snprintf(p, sizeof(p), "(%u,%u)", cur.P.x, cur.P.y);
 	if (cur.Q.inf) strcpy(q, "O"); else snprintf(q, sizeof(q), "(%u,%u)", cur.Q.x, cur.Q.y);
-	snprintf(b, n, "curve=%s op=%s P=%s Q=%s k1=%u k2=%u", cur.curve, cur.op, p, q, cur.k1, cur.k2);
+	snprintf(b, n, "%s curve=%s op=%s P=%s Q=%s k1=%u k2=%u", CFG_TEXT, cur.curve, cur.op, p, q, cur.k1, cur.k2);
 }
 
 /* oracle clauses shared by every tiny case */
@@ -341,14 +381,14 @@ do_add_pair(np_t P, np_t Q, size_t bits) {
 	int rc;
 
 	cur.P = P; cur.Q = Q; cur.k1 = cur.k2 = 0;
-	if (vh_begin("ec_point_add")) {
+	if (vh_begin(TGT_ADD)) {
 		cur.op = "P+Q";
 		pt_set(&a, bits, P); pt_set(&b, bits, Q);
 		PAINT();
 		rc = ec_point_add(&a, &b, CURVE);
 		tiny_check(rc, &a, n_add(P, Q), (!P.inf && !Q.inf));
 	}
-	if (vh_begin("ec_point_sub")) {
+	if (vh_begin(TGT_SUB)) {
 		cur.op = "P-Q";
 		pt_set(&a, bits, P); pt_set(&b, bits, Q);
 		PAINT();
@@ -382,7 +422,7 @@ tiny_add_sub_dbl(void) {
 	}
 	for (i = 0; i < GRP_N; i ++) {	/* doubling through one pointer, every point */
 		cur.P = cur.Q = GRP[i]; cur.k1 = cur.k2 = 0;
-		if (!vh_begin("ec_point_add/same-pointer"))
+		if (!vh_begin(TGT_DBL))
 			continue;
 		cur.op = "P+P";
 		pt_set(&p, bits, GRP[i]);
@@ -399,7 +439,7 @@ unk_one(np_t P, uint32_t k, const np_t *mult) {
 	int rc;
 
 	cur.P = P; cur.Q = NP_O; cur.k1 = k; cur.k2 = 0;
-	if (!vh_begin("ec_point_unknown_pt_mult"))
+	if (!vh_begin(TGT_UNK))
 		return;
 	cur.op = "k1*P";
 	pt_set(&p, CURVE->m, P);	/* capacity used by ecdsa_dh() */
@@ -423,7 +463,8 @@ tiny_unk(void) {
 	uint32_t i, k;
 	int a, j;
 	np_t *mult;
-	int whole_group = (8 == TC->m && (UNK_TABLE_LOG2 <= 4) && (vh_thorough || UNK_TABLE_LOG2 <= 2));
+	int rich = (0 == strcmp(TC->name, "t8_gen_h4_cyc") || (vh_thorough && 0 == strcmp(TC->name, "t8_m3_h4_v4")));
+	int whole_group = (rich && (UNK_TABLE_LOG2 <= 4) && (vh_thorough || UNK_TABLE_LOG2 <= 2));
 
 	if (whole_group) {
 		for (i = 0; i < GRP_N; i ++) {
@@ -457,7 +498,7 @@ bp_one(uint32_t k, const np_t *mult) {
 	int rc;
 
 	cur.P = NP_O; cur.Q = NP_O; cur.k1 = k; cur.k2 = 0;
-	if (!vh_begin("ec_point_mult_bp"))
+	if (!vh_begin(TGT_BP))
 		return;
 	cur.op = "k1*G";
 	pt_set(&r, CURVE->m, NP_O);	/* result capacity used by ecdsa_verify_priv_key() */
@@ -497,7 +538,7 @@ twin_one(int generic, np_t A, uint32_t k1, np_t Q, uint32_t k2, np_t want) {
 	int rc;
 
 	cur.P = A; cur.Q = Q; cur.k1 = k1; cur.k2 = k2;
-	if (!vh_begin(generic ? "ec_point_twin_mult" : "ec_point_twin_mult_bp"))
+	if (!vh_begin(generic ? TGT_TWIN : TGT_TWINBP))
 		return;
 	cur.op = generic ? "k1*P+k2*Q" : "k1*G+k2*Q";
 	pt_set(&q, CURVE->m, Q);
@@ -582,7 +623,7 @@ tiny_all(void) {
 		alphabets_build();
 		cur.curve = t->name; cur.P = cur.Q = NP_O; cur.k1 = cur.k2 = 0; cur.op = "setup";
 		c02_tiny_curve_to_str(t, &cs);
-		owns = vh_begin("ecdsa_curve_from_str");	/* every shard builds the curve, one owns the case */
+		owns = vh_begin(TGT_SETUP);	/* every shard builds the curve, one owns the case */
 		PAINT();
 		rc = ecdsa_curve_from_str(&cs.str, CURVE);
 		if (0 != rc) {
@@ -708,8 +749,8 @@ real_all(void) {
 				exit(3);
 			}
 			cs = &ec_curve_str[idx];
-			snprintf(real_desc, sizeof(real_desc), "curve=%s setup", rf[2]);
-			owns = vh_begin("ecdsa_curve_from_str");
+			snprintf(real_desc, sizeof(real_desc), "%s curve=%s setup", CFG_TEXT, rf[2]);
+			owns = vh_begin(TGT_SETUP);
 			PAINT();
 			rc = ecdsa_curve_from_str(cs, CURVE);
 			if (0 != rc) {
@@ -722,9 +763,9 @@ real_all(void) {
 			active = 1;
 			npts = 0;
 			bits_dbl = EC_CURVE_CALC_BITS_DBL(CURVE);
-			if (vh_begin("ec_curve_validate")) {
+			if (vh_begin(TGT_VALIDATE)) {
 				warn = 0;
-				snprintf(real_desc, sizeof(real_desc), "curve=%s validate", rf[2]);
+				snprintf(real_desc, sizeof(real_desc), "%s curve=%s validate", CFG_TEXT, rf[2]);
 				PAINT();
 				rc = ec_curve_validate(CURVE, &warn);
 				/* not part of the property: recorded, never a violation */
@@ -747,9 +788,9 @@ real_all(void) {
 			if (0 == (C02_TARGETS & T_ADD)) break;
 			{
 				int ip = atoi(rf[2]), iq = atoi(rf[3]);
-				const char *tgt = ('a' == rf[1][0]) ? "ec_point_add" : (('s' == rf[1][0]) ? "ec_point_sub" : "ec_point_add/same-pointer");
+				const char *tgt = ('a' == rf[1][0]) ? TGT_ADD : (('s' == rf[1][0]) ? TGT_SUB : TGT_DBL);
 				if (!vh_begin(tgt)) break;
-				snprintf(real_desc, sizeof(real_desc), "curve=%s %.300s", cs->name, keep);
+				snprintf(real_desc, sizeof(real_desc), "%s curve=%s %.300s", CFG_TEXT, cs->name, keep);
 				real_desc[strcspn(real_desc, "\n")] = 0;
 				real_pt_load(&a, bits_dbl, px[ip], py[ip]);
 				real_pt_load(&b, bits_dbl, px[iq], py[iq]);
@@ -762,8 +803,8 @@ real_all(void) {
 			break;
 		case 'U':
 			if (0 == (C02_TARGETS & T_UNK)) break;
-			if (!vh_begin("ec_point_unknown_pt_mult")) break;
-			snprintf(real_desc, sizeof(real_desc), "curve=%s %.300s", cs->name, keep);
+			if (!vh_begin(TGT_UNK)) break;
+			snprintf(real_desc, sizeof(real_desc), "%s curve=%s %.300s", CFG_TEXT, cs->name, keep);
 			real_desc[strcspn(real_desc, "\n")] = 0;
 			i = atoi(rf[1]);
 			real_pt_load(&a, CURVE->m, px[i], py[i]);
@@ -775,8 +816,8 @@ real_all(void) {
 			break;
 		case 'B':
 			if (0 == (C02_TARGETS & T_BP)) break;
-			if (!vh_begin("ec_point_mult_bp")) break;
-			snprintf(real_desc, sizeof(real_desc), "curve=%s %.300s", cs->name, keep);
+			if (!vh_begin(TGT_BP)) break;
+			snprintf(real_desc, sizeof(real_desc), "%s curve=%s %.300s", CFG_TEXT, cs->name, keep);
 			real_desc[strcspn(real_desc, "\n")] = 0;
 			ec_point_init(&r, CURVE->m);
 			real_k_load(&k1, rf[1]);
@@ -787,8 +828,8 @@ real_all(void) {
 			break;
 		case 'T':
 			if (0 == (C02_TARGETS & T_TWIN)) break;
-			if (!vh_begin("ec_point_twin_mult_bp")) break;
-			snprintf(real_desc, sizeof(real_desc), "curve=%s %.400s", cs->name, keep);
+			if (!vh_begin(TGT_TWINBP)) break;
+			snprintf(real_desc, sizeof(real_desc), "%s curve=%s %.400s", CFG_TEXT, cs->name, keep);
 			real_desc[strcspn(real_desc, "\n")] = 0;
 			i = atoi(rf[2]);
 			real_pt_load(&b, CURVE->m, px[i], py[i]);
@@ -800,8 +841,8 @@ real_all(void) {
 			break;
 		case 'W':
 			if (0 == (C02_TARGETS & T_TWIN)) break;
-			if (!vh_begin("ec_point_twin_mult")) break;
-			snprintf(real_desc, sizeof(real_desc), "curve=%s %.400s", cs->name, keep);
+			if (!vh_begin(TGT_TWIN)) break;
+			snprintf(real_desc, sizeof(real_desc), "%s curve=%s %.400s", CFG_TEXT, cs->name, keep);
 			real_desc[strcspn(real_desc, "\n")] = 0;
 			real_pt_load(&a, CURVE->m, px[atoi(rf[1])], py[atoi(rf[1])]);
 			i = atoi(rf[3]);
@@ -824,6 +865,7 @@ real_all(void) {
 int
 main(int argc, char **argv) {
 	vh_init(argc, argv);
+	names_init();
 	CURVE = (ec_curve_t *)malloc(sizeof(ec_curve_t));
 	if (0 != C02_TINY_MASK)
 		tiny_all();
@@ -833,8 +875,8 @@ main(int argc, char **argv) {
 #endif
 	/* measured, for the evidence: scalars short enough for the comb code proper (no binary fallback) */
 	if (C02_TARGETS & T_BP)
-		printf("STAT\tec_point_mult_bp\tscalar_digits_fit_m\t%llu\n", (unsigned long long)st_comb_eligible_bp);
+		printf("STAT\t%s\tscalar_digits_fit_m\t%llu\n", TGT_BP, (unsigned long long)st_comb_eligible_bp);
 	if (C02_TARGETS & T_UNK)
-		printf("STAT\tec_point_unknown_pt_mult\tscalar_digits_fit_m\t%llu\n", (unsigned long long)st_comb_eligible_unk);
+		printf("STAT\t%s\tscalar_digits_fit_m\t%llu\n", TGT_UNK, (unsigned long long)st_comb_eligible_unk);
 	return (vh_finish());
 }
